@@ -3,5 +3,5 @@
 set -e
 cd "$(dirname "$0")"
 coqc -R ../coq WF ../coq/extract/Extract.v > extract.log 2>&1 || { cat extract.log; exit 1; }
-ocamlfind ocamlopt -O3 -w -a -package str wfmodel.mli wfmodel.ml conv.ml kinds_extra.ml kinds_graph.ml kinds_adapters.ml tokparse.ml engparse.ml monitors_engine.ml kinds_engine.ml driver.ml -linkpkg -o driver 2>/dev/null || \
-ocamlfind ocamlopt -w -a -package str wfmodel.mli wfmodel.ml conv.ml kinds_extra.ml kinds_graph.ml kinds_adapters.ml tokparse.ml engparse.ml monitors_engine.ml kinds_engine.ml driver.ml -linkpkg -o driver
+ocamlfind ocamlopt -O3 -w -a -package str wfmodel.mli wfmodel.ml conv.ml kinds_extra.ml kinds_graph.ml kinds_adapters.ml tokparse.ml engparse.ml monitors_engine.ml kinds_engine.ml coqprint.ml driver.ml -linkpkg -o driver 2>/dev/null || \
+ocamlfind ocamlopt -w -a -package str wfmodel.mli wfmodel.ml conv.ml kinds_extra.ml kinds_graph.ml kinds_adapters.ml tokparse.ml engparse.ml monitors_engine.ml kinds_engine.ml coqprint.ml driver.ml -linkpkg -o driver
